@@ -386,6 +386,12 @@ def r_dom_cmp(ctx, rule='R10.2'):
                             rng = [x for x in M.walk(fnd[2][0][2][0]) if isinstance(x, tuple) and x and x[0] == 'aggr' and x[1].endswith('Range')]
                             pr = _closure_ret(ctx.F, fnd[2][1])
                             neq = isinstance(pr, tuple) and pr[0] == 'cmp' and pr[1] == 'Ne' and any(_ord_const(x) == 'Equal' for x in pr[2:4]) and any(M.is_param(x, index=1) for x in pr[2:4])
+                            # .find(Ordering::is_ne) / .find(|o| o.is_ne())
+                            fi_ = fnd[2][1]
+                            if isinstance(fi_, tuple) and fi_ and fi_[0] == 'fn' and str(fi_[1]).endswith('Ordering::is_ne'):
+                                neq = True
+                            if isinstance(pr, tuple) and pr and pr[0] == 'isvar' and M.is_param(pr[1], index=1) and pr[2] == frozenset(['Less', 'Greater']):
+                                neq = True          # |o| o.is_ne()  (normal form of the Ordering predicates: a variant test)
                             shape = bool(rng) and M.is_const(dict(rng[0][3])['start'], 0) and M.is_call(dict(rng[0][3])['end'], 'Dominance::nb_dimensions') and neq
                 ctx.check(okc and shape, rule, 'coordinate-iterator-form', c, c.loc(cbb),
                           'coordinates: first non-Equal result of cmp(coord(a, i), coord(b, i)) for i in 0..nb_dimensions, Equal if none (iterator form)',
